@@ -145,9 +145,10 @@ def decide(pid, tier, seed, reports, known, wall, write_replay, verbose=False):
         print(f"  {v['what']}")
     for f in faults:
         print(f"CHECKER-FAULT: {f.get('key') or f.get('name')}: {str(f.get('detail', ''))[-1500:]}")
-    if verbose or undecided:
-        for u in undecided[:40]:
-            print(f"UNDECIDED (falls to bounded stand-in, not counted as proved): {u['fn']}: {u['why'][:300]}")
+    if undecided:
+        print(f"UNDECIDED: {len(undecided)} obligation(s) not discharged on this run (not counted as proved; the bounded stand-ins decide; listed in the evidence file)")
+        for u in (undecided if verbose else undecided[:3]):
+            print(f"  undecided: {u['fn']}: {u['why'][:240]}")
 
     from specs import assumed
     trusted_base = sorted(trusted | set(assumed.TRUSTED_ALWAYS))
